@@ -274,8 +274,8 @@ func (w *World) monitorHostile() {
 				if err != nil {
 					return
 				}
-				if t := int(b[0] >> 4); (t == tPUBACK || t == tPUBREC || t == tPUBCOMP) && n == 4 {
-					acked[int(b[2])<<8|int(b[3])] = true
+				if t := int(b[0] >> 4); (t == tPUBACK || t == tPUBREC || t == tPUBCOMP) && n >= 4 {
+					acked[int(b[n-2])<<8|int(b[n-1])] = true // whatever the length encoding
 				}
 				b = b[n:]
 			}
